@@ -54,6 +54,7 @@ PROPS["C03"] = {
     ],
     "instances": [
         I("c03::c03_resolve_sr", bounds="precedences symbolic; u8 storage"),
+        I("c03::c03_resolve_sr_u16", bounds="precedences symbolic; u16 storage"),
         I("c03::c03_resolve_sr_u32", bounds="precedences symbolic; u32 storage"),
         I("c03::c03_resolve_sr_any", bounds="all 3 token and 3 production precedences, the conflicting token, "
           "production and table cell symbolic"),
@@ -81,11 +82,11 @@ PROPS["C19"] = {
                  "n = 1..2 free characters from {a, LF, CR, e-acute (2 bytes), euro (3 bytes)}; columns: texts of "
                  "2..3 free characters from {a, LF, CR, e-acute}, fed in two pieces at a free split, free "
                  "character-boundary offset; unwind = loop bound derived per instance",
-        "thorough": "as quick plus k = 5..6 query states, feed with k = 3 and n = 3, column texts of 4 characters "
+        "thorough": "as quick plus k = 5..8 query states, feed with k = 3 and n = 3, column texts of 4 characters "
                     "and of 3 characters including a 3-byte character",
     },
     "outside_claim": [
-        "query states with more than 6 lines (feed itself is covered inductively for any number of lines)",
+        "query states with more than 8 lines (feed itself is covered inductively for any number of lines)",
         "texts longer than 4 characters for columns",
         "how lrlex's lexer fills the cache while lexing (LRNonStreamingLexerDef::lexer: regex); the lexer-level "
         "queries span_lines_str / line_col themselves are covered through LRNonStreamingLexer::new",
@@ -107,6 +108,8 @@ PROPS["C19"] = {
         I("c19::c19_line_k4", bounds="4 lines"),
         I("c19::c19_line_k5", "thorough", bounds="5 lines"),
         I("c19::c19_line_k6", "thorough", bounds="6 lines"),
+        I("c19::c19_line_k7", "thorough", bounds="7 lines"),
+        I("c19::c19_line_k8", "thorough", bounds="8 lines"),
         I("c19::c19_line_witness", bounds="reachability twin, 3 lines", expect_fail=True),
         I("c19::c19_span_k1", bounds="1 line", no_cover=["line start"]),
         I("c19::c19_span_k2", bounds="2 lines", no_cover=["line start"]),
@@ -114,6 +117,8 @@ PROPS["C19"] = {
         I("c19::c19_span_k4", bounds="4 lines"),
         I("c19::c19_span_k5", "thorough", bounds="5 lines"),
         I("c19::c19_span_k6", "thorough", bounds="6 lines"),
+        I("c19::c19_span_k7", "thorough", bounds="7 lines"),
+        I("c19::c19_span_k8", "thorough", bounds="8 lines"),
         I("c19::c19_feed_k1_w1", bounds="1 line + widths [1]"),
         I("c19::c19_feed_k2_w11", bounds="2 lines + widths [1,1]"),
         I("c19::c19_feed_k1_w111", bounds="1 line + widths [1,1,1]"),
